@@ -92,6 +92,8 @@ def run(ctx):
         L.coqchk_props(ctx, "C14")
     bad = C.hygiene()
     ctx.obligation("hygiene: no Admitted/Axiom/Parameter/... in coq/", not bad, "; ".join(bad))
+    # tie 1 (translator): util.analyse_paths & co regenerated from the working tree, C14_basepath re-proved on the regenerated text
+    ctx.gen_paths = L.paths_translator(ctx)
     C.use_shadow()
     pq = C.Pqref()
     try:
@@ -127,6 +129,10 @@ def _run(ctx, pq):
         cmds.append(("analyse_paths", [L.enc(p) for p in paths], [] if root is None else [L.enc(root)]))
         meta.append(({"corr": "analyse_paths", "shape": shape, "paths": paths, "root": root}, impl))
     outs_a = pq.batch(cmds)
+    if getattr(ctx, "gen_paths", False):       # the regenerated text itself, evaluated by the kernel, against the real functions
+        pick = [m[0] for m in meta if all(L.coq_ascii_ok(p) for p in m[0]["paths"]) and m[0]["paths"]]
+        pick = rng.sample(pick, min(len(pick), 40))
+        L.gen_paths_samples(ctx, [(c["paths"], c["root"]) for c in pick] + [([], None)], [p for c in pick[:12] for p in c["paths"][:2]])
     samples = []
     L.sample_pq(samples, cmds, outs_a, rng, 10)
     for cmd in [("merge", [b"/d/a.parquet", b"/d/b.parquet", b"/d/c.parquet"],
